@@ -268,15 +268,20 @@ class CFG:
             return nxt
         if isinstance(test, ast.UnaryOp) and isinstance(test.op, ast.Not):
             return self._cond(test.operand, fnode, tnode, site, ctx, siblings, idx)
+        flagdef = None
         if isinstance(test, ast.Name):
             d = self._flag_def(test.id, siblings, idx)
-            if d is not None and isinstance(d, (ast.BoolOp, ast.Compare, ast.UnaryOp, ast.Call, ast.Attribute)):
+            if d is not None and isinstance(d, (ast.BoolOp, ast.Compare)) or (
+                    isinstance(d, ast.UnaryOp) and isinstance(d.op, ast.Not)):
                 return self._cond(d, tnode, fnode, site, ctx, None, 0)
+            if d is not None and isinstance(d, ast.Call):
+                flagdef = d  # keep the name as the tested atom, remember what it was bound to
         t = self._new("test", expr=test, site=site)
+        t.info = flagdef
         self._reg(test, t)
         self._reg(site, t)
-        ft = self._new("fact", expr=test, pol=True, site=site)
-        ff = self._new("fact", expr=test, pol=False, site=site)
+        ft = self._new("fact", expr=test, pol=True, site=site, info=flagdef)
+        ff = self._new("fact", expr=test, pol=False, site=site, info=flagdef)
         self._edge(t, ft)
         self._edge(t, ff)
         self._edge(ft, tnode)
